@@ -144,6 +144,9 @@ def run(chk):
          'a LIMIT is emitted for predicates without @Limit', fi=fi)
 
   # ---- R2: clauses appended to every result of PredicateSql -----------------
+  from rules.c04 import annotations_read_fresh_state
+  annotations_read_fresh_state(chk, 'C18-R1')
+
   chk.rule('C18-R2', 'every non-raising return of PredicateSql carries '
            'OrderByClause(name) then LimitClause(name) after the body; nested '
            'uses of a predicate go through PredicateSql', min_instances=4)
